@@ -123,7 +123,12 @@ pub fn project_of(c: &Case) -> (Project, u64) {
             let spell = |e: &mut Ent, from_dir: Option<&str>, to: &str| -> String {
                 let (tdir, tfile) = to.rsplit_once('/').unwrap();
                 match from_dir {
-                    None => if e.chance(1, 2) { format!("./{}", to) } else { to.to_string() },
+                    None => match e.below(3) {
+                        0 => format!("./{}", to),
+                        // (a spelling with `..` from the root directory)
+                        1 => format!("lib/../{}", to),
+                        _ => to.to_string(),
+                    },
                     Some(d) if d == tdir && e.chance(1, 2) => tfile.to_string(),
                     Some(_) => format!("../{}/{}", tdir.rsplit('/').next().unwrap(), tfile),
                 }
